@@ -151,6 +151,7 @@ ann('impl#2', 'impl-start', r'''
     closed spec fn p_step_limit(&self) -> real { rv(self.max_distance) }
     closed spec fn p_step_params_ok(&self) -> bool { fle(0.0f64, self.max_distance) }
     closed spec fn p_in_bounds(&self) -> bool { self.in_bounds_inv() }
+    closed spec fn p_space_ok(&self, sp: &SP) -> bool { true }
 ''', 'rrt.planner_specs')
 
 ann('fn setup', 'sig', r'''
